@@ -344,7 +344,8 @@ pub fn drive<S, F>(
             let jv = serde_json::to_value(&value).unwrap_or(Value::Null);
             st.rep.record_case(sub, hash_json(&jv), &info);
             st.n += 1;
-            let want_sample = st.n % sample_every == 1
+            let want_sample = st.n == 1
+                || st.n % sample_every == 1
                 || (info.nontrivial && !st.had_nontrivial_sample);
             if want_sample && st.rep.samples.len() < 6 {
                 if info.nontrivial {
